@@ -183,7 +183,12 @@ def r2(ctx, lib):
     # a failed copy leaves nothing under the target directory: the partial target is removed on the failure edge
     tgt = [r for r in rms if backslice(b, [r.args[0]]).params == {2}]
     ok_region = reachable_state(b, 0, ct, 'ok') if ct else set()
-    ctx.check(bool(tgt) and all(r.bb in err_region and r.bb not in ok_region for r in tgt), 'C18.R2', b.path + '|no-partial-target', (tgt[0].where() if tgt else cps[0].where()),
+    # (the other legitimate place for a removal of the target is the failure edge of remove(source): C05.R3 failed-remove-cleans-target)
+    rt = result_tests(b, src[0]) if src else []
+    rm_err = (reachable_state(b, 0, rt, 'err') - reachable_state(b, 0, rt, 'ok')) if rt else set()
+    on_copy_err = [r for r in tgt if r.bb in err_region and r.bb not in ok_region]
+    stray = [r for r in tgt if r not in on_copy_err and r.bb not in rm_err]
+    ctx.check(bool(on_copy_err) and not stray, 'C18.R2', b.path + '|no-partial-target', (tgt[0].where() if tgt else cps[0].where()),
               'when the copy fails the incomplete target is removed',
               'when fs::copy fails in the middle (ENOSPC, EIO, quota) the partly written file stays at DIR/<path>: it carries the name of the source but not its bytes, and every later `move` refuses the '
               'source with "Target already exists"')
